@@ -49,6 +49,10 @@ pub struct Case {
 	/// resources: presence per resource 0 client, 1 server, 2 both equal, 3 both different
 	pub resources: Vec<u8>,
 	pub parsed: bool,
+	/// both jars go through the zip layer before they are merged (entries then come with the sizes and check sums of the
+	/// archive); the jars then also hold a class that differs between the sides in a few bytes only - same length, same CRC-32
+	#[serde(default)]
+	pub zip: bool,
 }
 
 fn list_plan(n: usize) -> impl Strategy<Value = ListPlan> {
@@ -58,7 +62,7 @@ fn list_plan(n: usize) -> impl Strategy<Value = ListPlan> {
 fn strategy() -> impl Strategy<Value = Case> {
 	let class = (class_stream(), prop_oneof![1 => Just(Presence::ClientOnly), 1 => Just(Presence::ServerOnly), 1 => Just(Presence::Identical), 3 => Just(Presence::Different)], list_plan(6), list_plan(6), list_plan(4))
 		.prop_map(|(stream, presence, fields, methods, interfaces)| ClassPlan { stream, presence, fields, methods, interfaces });
-	(proptest::collection::vec(class, 1..=7), proptest::collection::vec(0u8..4, 6), any::<bool>()).prop_map(|(classes, resources, parsed)| Case { classes, resources, parsed })
+	(proptest::collection::vec(class, 1..=7), proptest::collection::vec(0u8..4, 6), any::<bool>(), prop_oneof![2 => Just(false), 1 => Just(true)]).prop_map(|(classes, resources, parsed, zip)| Case { classes, resources, parsed: parsed && !zip, zip })
 }
 
 /// the last two sit in packages that merely *start with the characters* `net/minecraft`: bundled libraries like `com/lib/L`
@@ -133,6 +137,46 @@ fn variants(k: usize, plan: &ClassPlan) -> (CClass, CClass) {
 	s.methods = scramble(pick(&base.methods, &plan.methods.server), plan.methods.scramble);
 	s.interfaces = scramble(pick(&itfs, &plan.interfaces.server), plan.interfaces.scramble);
 	(c, s)
+}
+
+fn crc32_table() -> [u32; 256] {
+	let mut t = [0u32; 256];
+	for i in 0..256u32 {
+		let mut c = i;
+		for _ in 0..8 {
+			c = if c & 1 != 0 { 0xEDB8_8320 ^ (c >> 1) } else { c >> 1 };
+		}
+		t[i as usize] = c;
+	}
+	t
+}
+
+fn crc32(data: &[u8]) -> u32 {
+	let t = crc32_table();
+	!data.iter().fold(!0u32, |c, b| t[((c ^ *b as u32) & 0xff) as usize] ^ (c >> 8))
+}
+
+/// overwrites data[pos..pos + 4] so that crc32(data) == target
+fn forge_crc32(data: &mut [u8], pos: usize, target: u32) {
+	let t = crc32_table();
+	// register in front of the four bytes
+	let before = data[..pos].iter().fold(!0u32, |c, b| t[((c ^ *b as u32) & 0xff) as usize] ^ (c >> 8));
+	// register the four bytes have to leave behind: run the tail backwards from the wanted end value
+	let unstep = |c: u32, b: u8| -> u32 {
+		let idx = (0..256usize).find(|i| t[*i] >> 24 == c >> 24).unwrap();
+		((c ^ t[idx]) << 8) | (idx as u32 ^ b as u32)
+	};
+	let mut after = !target;
+	for b in data[pos + 4..].iter().rev() {
+		after = unstep(after, *b);
+	}
+	// four reverse steps over zero bytes give the register that equals `before ^ bytes`
+	let mut c = after;
+	for _ in 0..4 {
+		c = unstep(c, 0);
+	}
+	let patch = (c ^ before).to_le_bytes();
+	data[pos..pos + 4].copy_from_slice(&patch);
 }
 
 fn side_annotation(side: &str) -> Annotation {
@@ -274,9 +318,38 @@ fn check(case: &Case, obs: &mut Obs) -> PropResult {
 		}
 	}
 
+	if case.zip {
+		// two versions of one class that differ (the client has the field `pf0`, the server has `pg0`) but have the same
+		// length and - four bytes of an unknown attribute of the server's version are chosen for it - the same CRC-32
+		let name = "net/minecraft/SameSizeSameCrc.class".to_string();
+		if !infos.contains_key(&name) {
+			let model = |field: &str, pad: [u8; 8]| CClass { minor: 0, major: 52, access: 0x21, name: "net/minecraft/SameSizeSameCrc".into(), super_class: Some("java/lang/Object".into()), interfaces: vec![], fields: vec![CMember { access: 2, name: "both".into(), desc: "I".into(), attrs: vec![] }, CMember { access: 2, name: field.into(), desc: "I".into(), attrs: vec![] }], methods: vec![], attrs: vec![Attr::Unknown { name: "Pad".into(), bytes: pad.to_vec() }] };
+			let marker = [0xCA, 0xFE, 0xF0, 0x0D, 0x11, 0x22, 0x33, 0x44];
+			let cb = encode(&model("pf0", marker), &Choices::default()).map_err(|e| format!("harness: {e:?}"))?.bytes;
+			let mut sb = encode(&model("pg0", marker), &Choices::default()).map_err(|e| format!("harness: {e:?}"))?.bytes;
+			if let (true, Some(pos)) = (cb.len() == sb.len(), sb.windows(8).position(|w| w == marker)) {
+				forge_crc32(&mut sb, pos + 4, crc32(&cb));
+				if crc32(&sb) == crc32(&cb) && sb != cb {
+					let read = |b: &Vec<u8>| -> Result<CClass, String> { project(&duke::read_class(&mut std::io::Cursor::new(b)).map_err(|e| format!("duke::read_class rejected a well-formed class file: {e:#}"))?).map(|m| m.canon()).map_err(|e| format!("harness: {e}")) };
+					client.push((name.clone(), Entry::Class(cb.clone())));
+					server.push((name.clone(), Entry::Class(sb.clone())));
+					infos.insert(name, Info { presence: Presence::Different, c: Some((read(&cb)?, cb)), s: Some((read(&sb)?, sb)) });
+					obs.label("differing_class_with_equal_size_and_crc32");
+				}
+			}
+		}
+	}
 	let cj = build_jar(&client, case.parsed)?;
 	let sj = build_jar(&server, false)?;
-	let merged = dukebox::merge::merge(cj, sj).map_err(|e| format!("dukebox::merge::merge failed: {e:#}"))?;
+	let merged = if case.zip {
+		obs.label("input_form:both_jars_as_zip_archives");
+		let cz = cj.to_mem().map_err(|e| format!("harness: writing the client jar failed: {e:#}"))?;
+		let sz = sj.to_mem().map_err(|e| format!("harness: writing the server jar failed: {e:#}"))?;
+		dukebox::merge::merge(cz, sz)
+	} else {
+		dukebox::merge::merge(cj, sj)
+	}
+	.map_err(|e| format!("dukebox::merge::merge failed: {e:#}"))?;
 
 	// expected entry names: union, each once, minus signature files and server-only bundled libraries
 	let mut want: Vec<String> = Vec::new();
